@@ -330,26 +330,30 @@ func TestC15ReadWake(t *testing.T) {
 	}
 }
 
-// TestC15Wrap (thorough tier): more than 65536 data packets in one stream, as
-// sender and as receiver, so that seq wraps from 65535 to 0.
+// TestC15Wrap: more than 65536 data packets in one stream, as receiver (both
+// tiers) and as sender (thorough tier), so that seq wraps from 65535 to 0.
 func TestC15Wrap(t *testing.T) {
 	ev.Begin(t)
-	if !ev.Thorough() {
-		t.Skip("thorough tier only")
-	}
 	shard := 0
 	fmt.Sscanf(os.Getenv("VERIF_SHARD"), "%d", &shard)
 	carrier := []string{"iq", "message"}[shard%2]
 	block := 1 + (shard/2)%3
 	extra := 150 + 37*shard
+	if !ev.Thorough() {
+		// quick tier: the receiving direction only, over the cheaper carrier
+		carrier, extra = "message", 40
+	}
 	// sender: every Write call of `block` bytes; packets carry 3 bytes each for
 	// blocks 1..3 (one base64 group), so > 65536 packets need > 196608 bytes
 	nbytes := 3 * (65536 + extra)
 	send := &scenario{Name: fmt.Sprintf("wrap-send(%s,block=%d,%d bytes in Write calls of %d)", carrier, block, nbytes, block),
 		Light: true, Opener: "lib", Carrier: carrier, Block: block, SID: "wrap", OpenReply: "result", Final: "C", DrainK: 64,
 		Steps: []step{{Op: "WL", B: bl(nbytes, uint32(shard)), K: block}}}
-	res := runScenario(send)
-	report(t, send, res)
+	var res result
+	if ev.Thorough() {
+		res = runScenario(send)
+		report(t, send, res)
+	}
 	// receiver: 65536+extra packets of 1..3 bytes, reads now and then, bad
 	// packets around the wrap
 	recv := &scenario{Name: fmt.Sprintf("wrap-recv(%s,%d packets)", carrier, 65536+extra),
